@@ -105,10 +105,12 @@ class Build:
                 return False, 'ocaml build failed:\n' + out
         return True, ''
 
-    def harness(self):
+    def harness(self, race=False):
         hdir = self.root + '/harness'
         shutil.copy('/repo/go.sum', hdir + '/go.sum')
         rc, out = sh([GO, 'build', '-tags', 'verif', '-o', self.root + '/build/harness', '.'], cwd=hdir, timeout=1200)
+        if rc == 0 and race:
+            rc, out = sh([GO, 'build', '-race', '-tags', 'verif', '-o', self.root + '/build/harness-race', '.'], cwd=hdir, timeout=1800)
         return rc == 0, out
 
 
@@ -203,7 +205,7 @@ def main(root, argv):
         tr_ok, tr_out = b.translate()
         coq_ok, pout, mout = b.coq(prop)
         mod_ok, mod_out = b.model()
-        har_ok, har_out = b.harness()
+        har_ok, har_out = b.harness(race=meta.get('race', False))
     finally:
         fcntl.flock(lock, fcntl.LOCK_UN)
 
@@ -229,8 +231,11 @@ def main(root, argv):
     total = nbad = 0; mism = []
     if har_ok:
         extra = meta.get('harness_args', [])
-        hcmd = 'ulimit -v %d; exec %s/build/harness -tier %s -seed %d -out %s %s %s' % (
-            meta.get('mem_kb', 12000000), root, tier, seed, rundir, ' '.join(extra), prop)
+        hbin = 'harness-race' if meta.get('race') else 'harness'
+        # (the race detector reserves a large virtual address range: no ulimit -v for that binary)
+        lim = 'true' if meta.get('race') else 'ulimit -v %d' % meta.get('mem_kb', 12000000)
+        hcmd = '%s; GORACE="halt_on_error=1 exitcode=66" exec %s/build/%s -tier %s -seed %d -out %s %s %s' % (
+            lim, root, hbin, tier, seed, rundir, ' '.join(extra), prop)
         rc, hout = sh(['bash', '-c', hcmd], cwd=root + '/harness', timeout=meta.get('timeout', 3000))
         if rc != 0 or not os.path.exists(rundir + '/stats.json'):
             broken.append('harness run failed (rc=%d):\n%s' % (rc, hout[-3000:]))
